@@ -61,6 +61,8 @@ def check(ctx) -> None:
     ctx.rule("C12.set-changed", "MUST-PASS: every writer of a chromosome's test case / test list reaches `<chromosome>.changed = True` on every path to a normal exit", floor=7)
     ctx.rule("C12.alias", "OWNERSHIP: a variation operator installs test case chromosomes of another suite only as clones (no object shared between two suites' test lists)", floor=1)
     ctx.rule("C12.must-use", "MUST-USE: the boolean result of an operation that reports 'something changed' is never discarded in the variation operators", floor=8)
+    ctx.rule("C12.clone-fresh", "ABSINT: ComputationCache.clone returns a cache that shares no list / dict with the original (for empty and non-empty containers) and holds equal contents", floor=2)
+    _clone_fresh(ctx, repo)
     ctx.rule("C12.clearers", "WHO-MAY: `<x>.changed = False` occurs only in the enumerated functions", floor=3)
 
     # ------------------------------------------------------------------ C12.invalidate
@@ -352,3 +354,33 @@ def check(ctx) -> None:
                 base = qn.split(".<locals>")[0].split("#")[0]
                 allowed = CLEARERS.get((mod.name, base)) or CLEARERS.get((mod.name, "*"))
                 ctx.check("C12.clearers", n, allowed is not None, f"{mod.name}:{qn} clears a chromosome's dirty flag; only the cache, the two run helpers and the enumerated sites may do that", what=f"{qn}: {allowed}")
+
+
+def _clone_fresh(ctx, repo) -> None:
+    from sa.engine import peval
+
+    CC = "pynguin.ga.computation_cache"
+    cls = repo.cls(CC, "ComputationCache")
+    fn = repo.methods(cls).get("clone")
+    if fn is None:
+        raise AnalysisError("anchor vanished: ComputationCache.clone")
+    ctx.analysed(fn)
+    cmod = repo.module(CC)
+    cres = peval.repo_class_resolver(repo, only={"ComputationCache"})
+    for label, filled in (("non-empty containers", True), ("empty containers", False)):
+        kw = {"fitness_functions": ["ff"] if filled else [], "coverage_functions": ["cf"] if filled else [], "fitness_cache": {"ff": 1.0} if filled else {},
+              "is_covered_cache": {"ff": False} if filled else {}, "coverage_cache": {"cf": 0.5} if filled else {}}
+        tag = f"[clone {label}]"
+        try:
+            it = peval.Interp(resolver=peval.repo_resolver(repo), class_resolver=cres)
+            orig = it.instantiate("ComputationCache", cres("ComputationCache", cmod), ["chromosome"], dict(kw))
+            clone = orig.methods["clone"]("other chromosome")
+        except (peval.Undecided, peval.Raises) as exc:
+            ctx.undecide("C12.clone-fresh", fn, f"{tag}: {exc}")
+            continue
+        shared = sorted(k for k, v in orig.fields.items() if isinstance(v, (list, dict)) and clone.fields.get(k) is v)
+        differs = sorted(k for k, v in orig.fields.items() if isinstance(v, (list, dict)) and clone.fields.get(k) != v)
+        own = clone.fields.get("_chromosome") == "other chromosome"
+        ctx.check("C12.clone-fresh", fn, not shared and not differs and own,
+                  f"{tag}: the clone shares {shared} with the original (contents differ: {differs}; bound to the new chromosome: {own}): a value cached for one chromosome is returned for its relative after that one changed",
+                  what=f"{tag}: own copies of every container, equal contents", stmt=tag)
